@@ -42,7 +42,7 @@ REQUIRED_COUNTERS = {"quick": dict([("target:" + t, 200) for t in TARGETS] + [("
                                                                               ("perturbation:reseed-global", 1000), ("perturbation:library-call", 1000)]),
                      "thorough": dict([("target:" + t, 3000) for t in TARGETS] + [("seed:0", 6000), ("fresh-process-replays", 600), ("unseeded-pairs", 5000),
                                                                                  ("perturbation:reseed-global", 10000), ("perturbation:library-call", 10000)])}
-N = {"quick": {"hist": 4000, "fresh": 96}, "thorough": {"hist": 60000, "fresh": 960}}
+N = {"quick": {"hist": 4000, "fresh": 96}, "thorough": {"hist": 300000, "fresh": 1600}}
 SEED_POOL = [0, 1, 42, 2**32 - 1]
 
 
